@@ -180,6 +180,10 @@ def run(rep, idx, tier):
     rep.require("C16.4", 1)
     rep.require("C16.5", 5)
     rep.require("C16.6", 2)
+    # the pin interface: i is an input of the peripheral, o / oe are its outputs (connect() wires them by these flows)
+    rep.require("C16.7", 4)
+    from .c20 import member_table, SIG_SPECS
+    member_table(rep, idx, idx.find_class("PinSignature"), SIG_SPECS["PinSignature"][1], rule="C16.7")
     from . import glue as _glue
     # the input synchroniser stages are reset-less on purpose (their value after reset is the pin level within
     # input_stages cycles either way); the output storage register is not
